@@ -41,6 +41,11 @@ MUTANTS = [
      "    for directive in reversed(directives_definition):", "    for directive in directives_definition:"),
     ("type-hooks-twice-for-variables", ["C13"], "tartiflette/coercers/literals/directives_coercer.py",
      "    if not directives or (\n        isinstance(node, VariableNode) and not is_input_field\n    ):", "    if not directives:"),
+    ("subscription-ends-on-failing-event", ["C14"], "tartiflette/engine.py",
+     "            yield await execute(\n                self._schema,\n                document,\n                self._build_response,\n                payload,\n                context,\n                variables,\n                operation_name,\n            )",
+     "            _res = await execute(\n                self._schema,\n                document,\n                self._build_response,\n                payload,\n                context,\n                variables,\n                operation_name,\n            )\n            yield _res\n            if _res.get(\"data\") is None and _res.get(\"errors\"):\n                return"),
+    ("subscription-ignores-payload", ["C14"], "tartiflette/engine.py",
+     "                self._build_response,\n                payload,\n", "                self._build_response,\n                initial_value,\n"),
     ("include-inverted", ["C01"], "tartiflette/directive/builtins/include.py",
      'if not directive_args["if"]:', 'if directive_args["if"] is None:'),
 ]
